@@ -88,7 +88,7 @@ class Machine:
             'cmp_q_left': 0, 'cmp_q_right': 0, 'cmp_b_left': 0, 'cmp_b_right': 0, 'cmp_nan': 0,
             'cmp_frac': 0, 'cmp_nonzero_count': 0, 'print_char': 0, 'print_num': 0, 'print_frac': 0,
             'print_nan': 0, 'nan_pops': 0, 'nan_dropped_on_empty': 0, 'multi_operand': 0,
-            'fractions_made': 0, 'negatives_made': 0, 'push_stack0': 0, 'heart_after_heart': 0, 'jump_back_over_first_read': 0, 'heart_return_to_self': 0,
+            'fractions_made': 0, 'negatives_made': 0, 'push_stack0': 0, 'heart_after_heart': 0, 'jump_back_over_first_read': 0, 'heart_return_to_self': 0, 'forward_jumps': 0, 'pops_of_own_values_from_stack0': 0,
         }
         self.cmp_log = None   # optional list of (value, count, op, went_left)
         self.last_jump_was_heart = False
@@ -191,6 +191,8 @@ class Machine:
             else:
                 self.st['eof_reads'] += 1
         if s:
+            if i == 0 and self.li == 0:
+                self.st['pops_of_own_values_from_stack0'] += 1
             return s.pop()
         self.st['nan_pops'] += 1
         return NAN
@@ -277,6 +279,8 @@ class Machine:
                     self.last_jump_was_heart = False
                     if self.first_read_loc is not None and tgt < self.first_read_loc:
                         self.st['jump_back_over_first_read'] += 1
+                    if tgt > loc:
+                        self.st['forward_jumps'] += 1
                     return tgt
             elif self.latest is not None:
                 self.st['heart_returns'] += 1
